@@ -76,3 +76,32 @@ Proof. exact fresh_machine. Qed.
 Theorem C04_never_emptied_under_clients : forall c ts m o, safe_cfg c = true -> Forall real_token ts ->
   m_run (m_init c) ts = (m, o) -> m_rs m <> [] -> header_valid (w_log (m_w m)) = true.
 Proof. intros c ts m o Hs Hts R. exact (F_valid _ _ (m_run_F c Hs ts (m_init c) m o (MInvF_init c) Hts R)). Qed.
+
+(* ---------------------------------------------------------------------------------------------
+   Death while the segment file is being (re-)created: ShmWriter::wipe truncates the file and
+   writes the header field by field (version and generation 0), then the zeroed body.  Every state a
+   death between or inside these writes can leave - every prefix of the final image - is refused by
+   readers, and the next daemon's start-up + first publication produce exactly the published
+   segment.  The write sequence is measured from the running code with strace on every run
+   (generated Current_C04.v: the measured writes give the modelled image, the file is opened with
+   O_TRUNC, and every prefix of the measured image is refused). *)
+From CB Require Import Layout Open LayoutProofs.
+
+Theorem C04_death_inside_wipe_leaves_nothing_readable : forall n h,
+  reader_open (FFile (firstn n wipe_image)) <> OpenOk h.
+Proof. exact wipe_crash_never_valid. Qed.
+
+Theorem C04_death_inside_wipe_is_repaired : forall n r, ceb_ok r ->
+  after_first_publication (FFile (firstn n wipe_image)) r = Some (encode_header (fresh_header 2) ++ encode_ceb r).
+Proof. exact wipe_crash_then_restart. Qed.
+
+Theorem C04_measured_writes_criterion : forall writes, crash_states_refused writes = true ->
+  forall n h, reader_open (FFile (firstn n (concat writes))) <> OpenOk h.
+Proof. exact crash_states_refused_spec. Qed.
+
+(* truncation first is essential: the same writes over the old content can pass through a state
+   readers accept with the old garbage as its record *)
+Theorem C04_wipe_without_truncation_refuted :
+  exists old k h, (forall h', reader_open (FFile old) <> OpenOk h') /\
+                  reader_open (FFile (overwrite old wipe_image k)) = OpenOk h.
+Proof. exact wipe_without_truncation_refuted. Qed.
